@@ -38,6 +38,8 @@ it true, every step of it read off the MIR:
   legacy     the legacy Digest wrappers reach their hashing context on every path (input / result / reset; shared with C09)
   index-bounds every slice expression / split_at over the tracked windows is provably in bounds (a split that makes update
              panic breaks the property as surely as a wrong digest)
+             BLAKE2 update_mut for every pending count and the boundary lengths, increment_counter / compress opaque: the
+             first (|S|-1) div B blocks of pending ++ input are compressed in order, the last stays buffered (b2shape.py)
 Not decided: the digest values themselves (C01), SIMD lane batching (C16)."""
 import re
 
